@@ -1088,6 +1088,21 @@ def c09c(F, R):
             R.ok(f"json|{k}", detail=f"json {k} <- {v}()")
         else:
             R.bad(f"json|{k}", f"JSON field `{k}` is filled from {got.get(k)}(), expected {v}()", f["sp"])
+    # editor (thorough tier: the lsp crate is in the fact base): our ranges end ON their last character, an LSP range ends after it
+    tr = [q for q in F.fns if q.endswith("::to_range") and "riscv_analysis_lsp" in q]
+    for q in tr:
+        g = F.fn(q)
+        st = [n for n in walk(g["hir"]["value"], pats=False) if n.get("k") == "Struct" and any(x["name"] == "character" for x in n.get("fields", []))]
+        ends = [x for n in st for x in n["fields"] if x["name"] == "character" and mentions_call(x["e"], "end")]
+        if not ends:
+            R.bad("lsp|range-end", "UNEXTRACTABLE: the end character of the editor range not found", g["sp"])
+            continue
+        e = ends[0]["e"]
+        plus = any(b_.get("k") == "Binary" and b_["op"] == "Add" and lit_value(b_["b"]) == 1 and mentions_call(b_["a"], "zero_idx_column") for b_ in walk(e, pats=False)) or mentions_call(e, "one_idx_column")
+        if plus:
+            R.ok("lsp|range-end", detail="editor range end = column of the last character + 1", where=loc(e))
+        else:
+            R.bad("lsp|range-end", "the editor range ends at the column of the last character of the reported text; LSP range ends are exclusive, so the last character is not covered", loc(e))
 
 
 # ============================================================================ C18
@@ -1390,6 +1405,33 @@ def c07i(F, R):
         if key not in cur.sites:
             R.bad(key, msg, where)
     R.note(f"cursor analysis: {len(cur.sites)} consume sites (with calling context), {len(outs)} exit states of next(); reviewed summary used for: {sorted(cur.used_summaries)}")
+
+
+@rule("C09", "C09.h.positions-are-not-taken-on-a-line-break", floor=15)
+def c09h(F, R):
+    """the cursor analysis again: wherever the lexer takes a position for a token or an error (`get_pos()`, `get_range()`), the character under the cursor is not known to be a line break - the lexer counts a newline character as column 0 of the *next* row, so a range that ends there lies on two lines (`Invalid string .. at 2 12:1`). The newline token itself is the one exception"""
+    from .lexcursor import Cursor, Unextractable
+    summ = _unicode_summary(F)
+    if isinstance(summ, str):
+        R.bad("unicode_code|summary", summ, F.fn(LEXER + "::unicode_code")["sp"])
+        return
+    nxt = [F.method(LEXER, "next", trait="Iterator")]
+    cur = Cursor(F, summaries={"unicode_code": summ})
+    try:
+        cur.analyse(nxt[0])
+    except Unextractable as ex:
+        R.bad("unextractable", f"UNEXTRACTABLE: the lexer uses a construct the cursor analysis does not model: {ex}", F.fn(nxt[0])["sp"])
+        return
+    for key, (where, k0) in sorted(cur.pos_sites.items()):
+        newline_arm = "|'\\n'|" in key or "|'\n'|" in key
+        if newline_arm:
+            R.ok(key, detail="the newline token's own position", where=where)
+        elif k0 == "L":
+            R.bad(key, "a position is taken while the cursor is on a line break: the lexer attributes that character to column 0 of the next row, so the range (or error position) built from it ends on the following line", where)
+        elif k0 != "N":
+            R.bad(key, "a position is taken on a character that has not been tested: if it is the line break (`'a` at the end of a line), the lexer attributes it to column 0 of the next row and the range built from it ends on the following line", where)
+        else:
+            R.ok(key, detail="position taken on a character established not to be a line break", where=where)
 
 
 @rule("C18", "C18.f.excerpt-gutter-matches-printed-number", floor=2)
@@ -1735,3 +1777,47 @@ def c07o(F, R):
             R.bad(key, f"the loop that discards a macro body can be left before its closing directive: {probs[0][1]} - after `.macro push %r` the `%` is not a token, the skip stops, and the body of the macro is linted as if it were code", loc(probs[0][0]))
         else:
             R.ok(key, detail="left only at the closing directive or at the end of the input", where=loc(lp))
+
+
+@rule("C09", "C09.g.range-ends-are-positions-of-characters", floor=1)
+def c09g(F, R):
+    """both ends of every token range are cursor positions (`get_pos()` at the first and at the last character): the lexer never derives an end by moving a `Position` itself - a range whose end was advanced by one is exclusive where all others are inclusive, and a node that ends in such a token (`0(sp)`) is reported one character too long"""
+    POS = "riscv_analysis::parser::position::Position"
+    mutators = set()
+    for name, pth in inherent_methods_of(F, POS).items():
+        g = F.fns.get(pth)
+        if not g or "hir" not in g:
+            continue
+        for a in walk(g["hir"]["value"], pats=False):
+            if a.get("k") in ("Assign", "AssignOp"):
+                l = peel(a["l"])
+                if l.get("k") == "Field" and ekey(l["e"]).lstrip("&*") == "self":
+                    mutators.add(pth)
+    if not mutators:
+        R.ok("no-position-mutators", detail="Position has no mutating method")
+        return
+    n = 0
+    for q, g in sorted(F.fns.items()):
+        if "hir" not in g or "::lexer::" not in q or "Lexer" not in q:
+            continue
+        n += 1
+        calls = [m for m in walk(g["hir"]["value"], pats=False) if m.get("k") in ("MethodCall", "Call") and callee_of(m) in mutators]
+        if calls:
+            R.bad(f"{short(root_fn_(q))}|{short(callee_of(calls[0]))}", f"the lexer moves a Position with `{short(callee_of(calls[0]))}` to build a range in `{short(root_fn_(q))}`: that end is one past the token's last character, while every other token's range ends on its last character", loc(calls[0]))
+    if n == 0:
+        raise Anchor("no lexer functions in the fact base")
+    if not any(True for _ in []):
+        R.ok("lexer", detail=f"{n} lexer bodies examined, {len(mutators)} Position mutators, none applied")
+
+
+def inherent_methods_of(F, ty):
+    out = {}
+    for i in F.impls:
+        if i["self_ty"] == ty and i.get("trait") is None:
+            for it in i["items"]:
+                out[it["name"]] = it["path"]
+    return out
+
+
+def root_fn_(path):
+    return path.split("::{closure")[0]
